@@ -2,5 +2,6 @@ SPECIFICATION Spec
 CONSTANTS MaxLen = 2
   Buggy = FALSE
   Wide = TRUE
+  Replay = FALSE
 INVARIANTS Isolation HeapWF ChildSeesOwnWrites EmitPD EmitVec
 PROPERTIES CellDiscipline Frozen
